@@ -482,6 +482,72 @@ impl Coll for Customs {
     }
 }
 
+/// a typed custom section that shares its name with a raw one
+#[derive(Debug)]
+struct Decoy(String);
+impl CustomSection for Decoy {
+    fn name(&self) -> &str {
+        &self.0
+    }
+    fn data(&self, _: &IdsToIndices) -> std::borrow::Cow<[u8]> {
+        std::borrow::Cow::Borrowed(&[])
+    }
+}
+
+/// raw custom sections taken out by name (`remove_raw`), each preceded by a *typed* section of the
+/// same name that the operation must leave alone
+struct CustomsByName {
+    m: Module,
+    ids: Vec<Option<TypedCustomSectionId<RawCustomSection>>>,
+}
+impl Coll for CustomsByName {
+    const NAME: &'static str = "customs-by-name";
+    const KIND: &'static str = "plain";
+    const HAS_GET: bool = true;
+    fn new() -> Self {
+        CustomsByName { m: Module::default(), ids: vec![] }
+    }
+    fn add(&mut self, v: u64) -> usize {
+        let ix = self.ids.len();
+        let name = format!("s{}", ix);
+        self.m.customs.add(Decoy(name.clone()));
+        let id = self.m.customs.add(RawCustomSection { name, data: v.to_string().into_bytes() });
+        self.ids.push(Some(id));
+        ix
+    }
+    fn known(&self) -> usize {
+        self.ids.len()
+    }
+    fn del(&mut self, i: usize) {
+        if self.m.customs.remove_raw(&format!("s{}", i)).is_none() {
+            panic!("absent")
+        }
+    }
+    fn idx(&self, i: usize) -> u64 {
+        self.get(i).expect("absent")
+    }
+    fn get(&self, i: usize) -> Option<u64> {
+        self.m.customs.get(self.ids[i].unwrap()).map(|s| String::from_utf8_lossy(&s.data).parse::<u64>().unwrap())
+    }
+    fn iter(&mut self) -> Vec<(usize, u64)> {
+        let mut out = vec![];
+        for (_uid, s) in self.m.customs.iter() {
+            let ix = (0..self.ids.len()).find(|&i| {
+                self.m.customs.get(self.ids[i].unwrap()).map(|r| std::ptr::eq(r as *const RawCustomSection as *const u8, s as *const dyn CustomSection as *const u8)).unwrap_or(false)
+            });
+            // the typed sections are not items of this collection; all of them must still be there
+            if let Some(ix) = ix {
+                out.push((ix, self.get(ix).unwrap_or(u64::MAX)));
+            }
+        }
+        let decoys = self.m.customs.iter().filter(|(_, s)| s.as_any().is::<Decoy>()).count();
+        if decoys != self.ids.len() {
+            out.push((usize::MAX, decoys as u64));
+        }
+        out
+    }
+}
+
 fn run_history<C: Coll>(ops: &[Op]) -> String {
     let mut c = C::new();
     let mut outs = vec![];
@@ -783,6 +849,7 @@ pub fn main(seed: u64, tier: &str, only: Option<&str>) {
             "imports" => go!(Imports),
             "functions" => go!(Funcs),
             "customs" => go!(Customs),
+            "customs-by-name" => go!(CustomsByName),
             _ => eprintln!("unknown collection {}", coll),
         }
         return;
@@ -802,4 +869,5 @@ pub fn main(seed: u64, tier: &str, only: Option<&str>) {
     suite::<Imports>(seed, n, maxlen, enum_len.min(3), &mut seen);
     suite::<Funcs>(seed, n, maxlen, enum_len.min(3), &mut seen);
     suite::<Customs>(seed, n, maxlen, enum_len.min(3), &mut seen);
+    suite::<CustomsByName>(seed ^ 0x7e, n, maxlen, enum_len.min(3), &mut seen);
 }
